@@ -1028,3 +1028,21 @@ package keeper
 //@ loop 2 step [update-mirrors-stored] valUpdates[_i - 1].Power == reducedValSet[_i - 1].Power
 //@ ensures [top-m-only] len(result) == min(M, len(bonded.0))
 //@ ensures [stored-is-returned] $SetLastProviderConsensusValSet.called && $SetLastProviderConsensusValSet.nextValidators == reducedValSet && len(result) == len(reducedValSet)
+
+// ---------------------------------------------------------------- C03 / C14 / C16: opt-in and per-consumer commission
+
+//@ func Keeper.HandleOptIn
+//@ ensures [inactive-rejected] !old(k.IsConsumerActive(ctx, consumerId)) ==> result != nil && S == old(S) && E == old(E) && X == old(X)
+//@ ensures [opted-in] result == nil ==> k.IsOptedIn(ctx, consumerId, providerAddr)
+//@ ensures [key-assigned-for-this-validator] result == nil && consumerKey != "" ==> $AssignConsumerKey.called && $AssignConsumerKey.consumerId == consumerId && $AssignConsumerKey.validator == old(k.stakingKeeper.GetValidatorByConsAddr(ctx, providerAddr.Address)).0 && $AssignConsumerKey.consumerKey == k.ParseConsumerKey(consumerKey).0 && $AssignConsumerKey.ret == nil
+//@ ensures [no-key-no-assignment] consumerKey == "" ==> !$AssignConsumerKey.called
+//@ ensures [only-this-validators-opt-in] consumerKey == "" ==> (forall key bytes :: key != types.OptedInKey(consumerId, providerAddr) ==> S[key] == old(S[key]))
+//@ ensures [no-deps] E == old(E) && X == old(X)
+
+//@ func Keeper.HandleSetConsumerCommissionRate
+//@ let minRate := old(k.stakingKeeper.MinCommissionRate(ctx))
+//@ ensures [inactive-rejected] !old(k.IsConsumerActive(ctx, consumerId)) ==> result != nil && S == old(S)
+//@ ensures [not-below-minimum] result == nil ==> minRate.1 == nil && commissionRate >= minRate.0
+//@ ensures [stored-for-this-validator] result == nil ==> k.GetConsumerCommissionRate(ctx, consumerId, providerAddr).1 && k.GetConsumerCommissionRate(ctx, consumerId, providerAddr).0 == commissionRate
+//@ ensures [only-this-record] forall key bytes :: key != types.ConsumerCommissionRateKey(consumerId, providerAddr) ==> S[key] == old(S[key])
+//@ ensures [no-deps] E == old(E) && X == old(X)
